@@ -560,3 +560,72 @@ Proof.
   - apply never_undercounts_all; auto.
   - intros B WB DONE. eapply agrees_when_all_completed; eauto.
 Qed.
+
+(* ------------------------------------------------------------------ clause (d) of the oracle, as the boolean it is *)
+Lemma dlookup_dump (es : list (Cas.entry key value)) k :
+  dlookup (map (fun e => (e_key e, e_val e)) es) k = option_map (@e_val key value) (lookup es k).
+Proof. induction es as [|e t IH]; simpl; auto. destruct (key_eqb (e_key e) k); auto. Qed.
+
+Lemma lookup_of_In (es : list (Cas.entry key value)) e : NoDup (map (@e_key key value) es) -> In e es -> lookup es (e_key e) = Some e.
+Proof.
+  induction es as [|a t IH]; simpl; intros ND X; [contradiction|].
+  destruct X as [->|IN]; [rewrite key_eqb_refl; auto|].
+  inversion ND; subst. destruct (key_eqb (e_key a) (e_key e)) eqn:E; auto.
+  apply key_eqb_eq in E. exfalso. apply H1. rewrite E. apply in_map; auto.
+Qed.
+
+Lemma hcount_In m c n : hsorted m -> In (c, n) m -> hcount m c = n.
+Proof.
+  induction m as [|[k v] t IH]; simpl; intros S IN; [contradiction|]. destruct S as [A S].
+  destruct IN as [X|X].
+  - inversion X; subst. rewrite N.eqb_refl. reflexivity.
+  - destruct (N.eqb k c) eqn:E; [apply N.eqb_eq in E; subst; specialize (A _ _ X); lia | apply IH; auto].
+Qed.
+
+Lemma handles_agree_reflect cf (s : store) :
+  NoDup (Cas.keys s) ->
+  (forall e, In e (st_ents s) -> VI2 cf (e_key e) (e_val e)) ->
+  (forall h c, hcnt_of s h c = alloc_of s h c) ->
+  handles_agree (store_dump s) = true.
+Proof.
+  intros ND VAL AG. unfold handles_agree, store_dump.
+  assert (HC : forall h c, handle_count (map (fun e => (e_key e, e_val e)) (st_ents s)) h c = hcnt_of s h c).
+  { intros h c. unfold handle_count, hcnt_of. rewrite dlookup_dump. destruct (lookup (st_ents s) (KHandle h)); reflexivity. }
+  apply forallb_forall. intros [k v] IN. apply in_map_iff in IN. destruct IN as (e & EQ & IN). inversion EQ; subst k v.
+  pose proof (VAL e IN) as V. pose proof (lookup_of_In _ e ND IN) as LK.
+  destruct (e_key e) as [c|h|host c] eqn:EK; destruct (e_val e) as [b|st|m] eqn:EV; simpl in V; try contradiction; auto.
+  - apply forallb_forall. intros x XIN. destruct (at_handle x) as [h|] eqn:AH; auto.
+    apply N.eqb_eq. rewrite HC, AG. unfold alloc_of. rewrite LK, EV. reflexivity.
+  - destruct V as (SM & PM & NE). apply andb_true_iff. split; [destruct m; [congruence | reflexivity]|].
+    apply forallb_forall. intros [c n] CIN. simpl.
+    pose proof (hcount_In m c n SM CIN) as HN.
+    assert (PN : (0 < n)%N) by (unfold hpos in PM; rewrite Forall_forall in PM; apply (PM _ CIN)).
+    apply andb_true_iff. split; [destruct (N.eqb n 0) eqn:Z; auto; apply N.eqb_eq in Z; lia|].
+    pose proof (AG h c) as A. unfold hcnt_of in A. rewrite LK, EV, HN in A.
+    rewrite dlookup_dump. unfold alloc_of in A.
+    destruct (lookup (st_ents s) (KBlock c)) as [eb|]; simpl; [|lia].
+    destruct (e_val eb) as [b|st2|m2]; try lia. apply N.eqb_eq. lia.
+Qed.
+
+Section LedgerBool.
+  Variable cf : config.
+  Variable fx : bool.
+  Hypothesis F1 : cf_count_requested cf = false.
+  Hypothesis F2 : cf_aip_leak cf = false.
+  Hypothesis F3 : cf_stale_cache cf = false.
+  Hypothesis BS : cf_bsize cf <> O.
+
+  (* when every client has completed, the oracle's handles_agree accepts the model's datastore *)
+  Theorem oracle_handles_agree clients evs B :
+    Forall (fun hc => Forall (wf_op cf) (snd hc)) clients -> within_budget cf fx clients evs B ->
+    Forall (fun c => exists l, c = CRun (Ret l))
+           (sy_clients (@Cas.sys_run key value lopt key_eqb key_ltb lmatch (list (op * result)) (Proofs.sys0 cf fx true clients) evs)) ->
+    handles_agree (store_dump (sy_store (@Cas.sys_run key value lopt key_eqb key_ltb lmatch (list (op * result)) (Proofs.sys0 cf fx true clients) evs))) = true.
+  Proof.
+    intros WF WB DONE.
+    destruct (ledger_reachable cf fx F1 F2 F3 BS clients evs B WF WB) as (gs & H & (SH & HO & ND & _ & _)).
+    apply (handles_agree_reflect cf); auto.
+    - intros e IN. destruct SH as [SE _]. destruct (SE _ IN) as [EI _]. eapply HO; eauto.
+    - eapply agrees_when_all_completed; eauto.
+  Qed.
+End LedgerBool.
